@@ -178,6 +178,56 @@ def faulty_delete_case(arg):
         victim_cid = r.choice(only_a)
         victim = next(loc for loc, (f, c) in w.chunk_names.items() if c == victim_cid and loc in w.backend.objects)
         state = {'n': 0}
+        # ---- the same on the REAL local backend with a failure of the operating system: the file of ONE object — a chunk of the deleted
+        #      snapshot, or the snapshot object itself — cannot be unlinked, for good (EPERM: an immutable file, a sticky directory of another
+        #      owner; EACCES: a read-only directory; EBUSY; EROFS)
+        rk = rng_for(seed, 'C08-fault-kind', idx)
+        variant = rk.choice(['mem', 'local-chunk', 'local-snapshot', 'local-snapshot']) if not isinstance(w.backend, R.AsyncMemBackend) else 'mem'
+        if variant != 'mem':
+            import errno
+            import os as _os
+            from ..impl import crashkit as C
+            C.no_backoff_sleep()
+            root = sc.dir('repo')
+            C.materialize(dict(w.backend.objects), root)
+            w.backend = C.make_dir_backend(root)
+            snap_loc = w.snap_by_sid[a['sid']]['location']
+            target = victim if variant == 'local-chunk' else snap_loc
+            tpath = _os.path.realpath(_os.path.join(str(root), target))
+            en = rk.choice(['EPERM', 'EACCES', 'EBUSY', 'EROFS'])
+            real_unlink, real_remove = _os.unlink, _os.remove
+
+            def refusing(real):
+                def f(path, *a_, **kw):
+                    try:
+                        same = _os.path.realpath(_os.fsdecode(_os.fspath(path))) == tpath
+                    except (TypeError, ValueError):
+                        same = False
+                    if same:
+                        state['n'] += 1
+                        raise OSError(getattr(errno, en), _os.strerror(getattr(errno, en)), _os.fspath(path))
+                    return real(path, *a_, **kw)
+                return f
+            _os.unlink, _os.remove = refusing(real_unlink), refusing(real_remove)
+            try:
+                out = w.delete(0, [a['sid']])
+            finally:
+                _os.unlink, _os.remove = real_unlink, real_remove
+            left = sorted(c for loc, (f, c) in w.chunk_names.items() if loc in w.backend.objects and c in only_a)
+            snap_left = snap_loc in w.backend.objects
+            res['summary'] = {'fault': variant + ':' + en, 'enc': enc, 'only_a': len(only_a), 'delete_error': out['error'], 'left': len(left), 'fault_hits': state['n'],
+                              'snapshot_left': snap_left}
+            if out['error'] is None and state['n']:
+                if variant == 'local-chunk' and left:
+                    res['violations'].append(('gc:delete-reported-complete-but-chunks-left',
+                                              f'delete on the local backend returned normally although unlink of a chunk file fails with {en}; {len(left)} chunk(s) referenced only by the deleted snapshot remain'))
+                if snap_left:
+                    e2, tree = w.restore(0, snapshot_regex='^' + w.snap_by_sid[a['sid']]['name'] + '$')
+                    res['violations'].append(('gc:delete-reported-complete-but-snapshot-left',
+                                              f'delete on the local backend returned normally although unlink of the snapshot object fails with {en}: the snapshot is still stored and listed'
+                                              + (f', {len(only_a) - len(left)} of its {len(only_a)} exclusive chunks are gone and it no longer restores ({e2 or "content differs"})'
+                                                 if (e2 is not None or tree != w.snap_by_sid[a['sid']]['truth']) else ' (it still restores)')))
+            return res
 
         def fault(op, name):
             if op == 'del' and name == victim:
